@@ -333,6 +333,11 @@ impl DiameterHeader {
         writer.write_all(&[self.version])?;
 
         // Length
+        if self.length > 0x00ff_ffff {
+            return Err(Error::EncodeError(
+                "message length does not fit into 24 bits".into(),
+            ));
+        }
         let length_bytes = &self.length.to_be_bytes()[1..4];
         writer.write_all(length_bytes)?;
 
